@@ -395,7 +395,8 @@ def constant_args_profile(f):
     out = {}
     for b, i, c in f.calls():
         cal = c.get('callee')
-        if not cal or cal.startswith('_dbus_verbose') or cal.startswith('_dbus_real_assert') or cal == '_dbus_warn':
+        if not cal or cal.startswith('_dbus_verbose') or cal.startswith('_dbus_real_assert') or cal == '_dbus_warn' \
+                or cal.startswith('__builtin_'):
             continue
         for a in c['args']:
             x = a
